@@ -79,14 +79,35 @@ package ice
 
 // A freshly constructed candidate has not been started: it owns no socket.
 //@ func NewCandidateServerReflexive
-//@   props C09
+//@   props C09 C16 C06 C17
 //@   opt nosafety
+//@   ensures C16 C06 C17 built-from-the-configuration: result1 == nil ==> result0.candidateBase.candidateType == CandidateTypeServerReflexive && result0.candidateBase.address == old(config.Address) && result0.candidateBase.port == old(config.Port) && result0.candidateBase.component == old(config.Component) && result0.candidateBase.priorityOverride == old(config.Priority) && result0.candidateBase.foundationOverride == old(config.Foundation)
+//@   ensures C16 related-address-as-configured: result1 == nil ==> result0.candidateBase.relatedAddress != nil && result0.candidateBase.relatedAddress.Address == old(config.RelAddr) && result0.candidateBase.relatedAddress.Port == old(config.RelPort)
+//@   ensures never-started: result1 == nil ==> result0 != nil && fresh(result0) && result0.candidateBase.closeCh == nil && result0.candidateBase.conn == nil
+
+// The two remaining constructors: the candidate is built from the configuration as given (type, address, port,
+// component, priority and foundation overrides, related address), owns the release hook of its allocation and has not
+// been started.
+//@ func NewCandidatePeerReflexive
+//@   props C09 C16 C06 C17
+//@   opt nosafety
+//@   ensures C16 C06 C17 built-from-the-configuration: result1 == nil ==> result0.candidateBase.candidateType == CandidateTypePeerReflexive && result0.candidateBase.address == old(config.Address) && result0.candidateBase.port == old(config.Port) && result0.candidateBase.component == old(config.Component) && result0.candidateBase.priorityOverride == old(config.Priority) && result0.candidateBase.foundationOverride == old(config.Foundation)
+//@   ensures C16 related-address-as-configured: result1 == nil ==> result0.candidateBase.relatedAddress != nil && result0.candidateBase.relatedAddress.Address == old(config.RelAddr) && result0.candidateBase.relatedAddress.Port == old(config.RelPort)
+//@   ensures never-started: result1 == nil ==> result0 != nil && fresh(result0) && result0.candidateBase.closeCh == nil && result0.candidateBase.conn == nil
+
+//@ func NewCandidateRelay
+//@   props C09 C16 C06 C17
+//@   opt nosafety
+//@   ensures C16 C06 C17 built-from-the-configuration: result1 == nil ==> result0.candidateBase.candidateType == CandidateTypeRelay && result0.candidateBase.address == old(config.Address) && result0.candidateBase.port == old(config.Port) && result0.candidateBase.component == old(config.Component) && result0.candidateBase.priorityOverride == old(config.Priority) && result0.candidateBase.foundationOverride == old(config.Foundation)
+//@   ensures C16 related-address-as-configured: result1 == nil ==> result0.candidateBase.relatedAddress != nil && result0.candidateBase.relatedAddress.Address == old(config.RelAddr) && result0.candidateBase.relatedAddress.Port == old(config.RelPort)
+//@   ensures C09 C16 keeps-the-relay-protocol-and-the-release-hook: result1 == nil ==> result0.relayProtocol == old(config.RelayProtocol) && result0.onClose == old(config.OnClose)
 //@   ensures never-started: result1 == nil ==> result0 != nil && fresh(result0) && result0.candidateBase.closeCh == nil && result0.candidateBase.conn == nil
 
 //@ func NewCandidateHost
-//@   props C09 C16 C06
+//@   props C09 C16 C06 C17 C18
 //@   opt nosafety
 //@   ensures C16 C06 keeps-the-configured-tcp-type: result1 == nil ==> result0.candidateBase.tcpType == old(config.TCPType)
+//@   ensures C16 C06 C17 C18 built-from-the-configuration: result1 == nil ==> result0.candidateBase.candidateType == CandidateTypeHost && result0.candidateBase.address == old(config.Address) && result0.candidateBase.port == old(config.Port) && result0.candidateBase.component == old(config.Component) && result0.candidateBase.priorityOverride == old(config.Priority) && result0.candidateBase.foundationOverride == old(config.Foundation) && result0.candidateBase.isLocationTracked == old(config.IsLocationTracked) && result0.network == old(config.Network)
 //@   ensures never-started: result1 == nil ==> result0 != nil && fresh(result0) && result0.candidateBase.closeCh == nil && result0.candidateBase.conn == nil
 
 // Host candidates on a UDP mux: every connection reference taken from the mux is
